@@ -186,8 +186,13 @@ def chk_case(inp, c):
         b = B[0]
         ok_a, r1 = c.try_call(e1.range_of_solutions, b.copy())
         ok_b, r2 = c.try_call(e2.range_of_solutions, (b * cc).copy())
+        if not ok_a and not ok_b:
+            c.cell("range:both-raise")        # e.g. the (clipped) target is outside the gamut in both unit systems
+            judge(type(r1) is type(r2), "the range query fails in the same way in both unit systems", "range-raise-kind-differs")
+            c.nontrivial(asserted)
+            return
         if not (ok_a and ok_b):
-            judge(False, "range query returns in both unit systems (interior target)", "range-raised",
+            judge(False, "the range query answers in both unit systems or in neither", "range-raised-in-one-twin",
                   err=str(r1 if not ok_a else r2)[:80])
             return
         rngx = ubv - lbv
